@@ -6,6 +6,7 @@ import vlib
 
 C08_DIR = os.path.dirname(os.path.abspath(__file__))
 last_skeleton = 0
+last_marks = {}
 
 
 def build_driver():
@@ -36,9 +37,13 @@ def run_driver(exe, cases, timeout=2400):
     """Returns (compared, mismatches:int, by_kind:{what: [lines]}, raw log)."""
     rc, log = vlib.sh([exe, cases], timeout=timeout)
     m = re.search(r"CASES (\d+) COMPARED (\d+) MISMATCHES (\d+)", log)
-    global last_skeleton
+    global last_skeleton, last_marks
     ms = re.search(r"SKELETON (\d+)", log)
     last_skeleton = int(ms.group(1)) if ms else 0
+    me = re.search(r"ENDMARK (\w+)", log)
+    mk = re.search(r"SKELMARK (\w+)", log)
+    last_marks = {"cases_seen": int(m.group(1)) if m else -1, "endmark": me.group(1) if me else "no-driver-output",
+                  "skelmark": mk.group(1) if mk else "no-driver-output"}
     by = {}
     for line in log.split("\n"):
         if line.startswith("MISMATCH "):
@@ -241,3 +246,24 @@ def vm_crosscheck(ctx, cases, want=60, max_len=1500):
     return {"cases": len([c for c in done if not c.startswith("T")]), "goals": goals,
             "with_document_and_writer": sum(1 for r in recs if r["parse"][0] == "ok" and r["coqast"]), "mismatches": real,
             "negative_detected": bool(neg), "streams": sorted(set(r["stream"] for r in recs)), "log_tail": log[-600:]}
+
+
+def count_guard(ctx, pid, generated, compared, need_skeleton=None, min_compared_ratio=1.0):
+    """A run in which the driver compared nothing (truncated case file, driver reading the wrong file or
+    stopping early) must not pass: the number of records the driver saw must be the number the harness says
+    it generated, the case file must end with its ENDFILE marker, and (C09) the skeleton file with ENDSKEL."""
+    problems = []
+    m = last_marks
+    if m.get("endmark") != "ok":
+        problems.append("case file end marker: %s" % m.get("endmark"))
+    if m.get("cases_seen") != generated:
+        problems.append("driver saw %s records, harness generated %s" % (m.get("cases_seen"), generated))
+    if compared < min_compared_ratio * generated or compared <= 0:
+        problems.append("driver compared %d of %d records" % (compared, generated))
+    if need_skeleton is not None:
+        if m.get("skelmark") != "ok" or last_skeleton != need_skeleton:
+            problems.append("skeleton records: marker %s, compared %d of %d" % (m.get("skelmark"), last_skeleton, need_skeleton))
+    if problems:
+        ctx.violation("%s-model-driver-count" % pid.lower(), "the correspondence run did not compare what the harness generated: " + "; ".join(problems),
+                      {"problems": problems, "marks": m}, found_input=False)
+    return problems
